@@ -3,17 +3,10 @@ import TaRs.Lemmas.Core.MovingAverageConvergenceDivergence
 import TaRs.Gen.MovingAverageConvergenceDivergence
 import TaRs.Lemmas.ExponentialMovingAverage
 import TaRs.Lemmas.Total.MovingAverageConvergenceDivergence
+import TaRs.Lemmas.Bar.MovingAverageConvergenceDivergence
 namespace TaRs.Gen.MovingAverageConvergenceDivergence
 open TaRs TaRs.Rs
 variable {F : Type} [Scalar F]
-
-/-- wiring of the bar path: WHICH field of the bar `next(&bar)` reads (a value-level fact, hence
-    here and not among the value-agnostic totality lemmas) -/
-theorem nextBar_eq (s : MovingAverageConvergenceDivergence F) (b : Bar F) :
-    s.nextBar b = s.next b.close := by
-  unfold nextBar
-  try simp only [gen_helper]
-  cases h : s.next b.close <;> simp [h]
 
 /-- MACD wiring: `macd = EMA_fast(x) − EMA_slow(x)`, `signal = EMA_signal(macd)`,
     `histogram = macd − signal`, in the code's operation order. -/
